@@ -1,64 +1,10 @@
-"""Per-property configuration of the check driver (streams, sizes, notes)."""
+"""Per-property configuration: one JSON file per property under config/ (streams, sizes, rule,
+trusted base, assumptions, and the MANIFEST texts)."""
+import glob
+import json
+import os
 
-CHECKS = {
-    "C03": {
-        "streams": [{"name": "parse.expr", "quick": 15000, "thorough": 400000}],
-        "rule": "parse.expr: corner-case corpus; every chain a op b and a op b op c over all 19 operator spellings (incl. <> and "
-                "regex operators with regex operands) exhaustively; thorough tier additionally k=3 exhaustively and every "
-                "parenthesisation of 5-atom chains over one operator per level; random expressions of 0-40 operators with "
-                "random-case keywords, parenthesised sub-chains, negated/signed operands, calls (also regex/wildcard arguments), "
-                "typed and segmented references, literals of every kind, bound parameters of every bindable and unbindable kind; "
-                "10% lexical soup. Compared with the model: the whole AST or the exact error text. Property oracle on the "
-                "implementation: simple chains group as an independent precedence-climbing reference says; print -> parse gives the "
-                "same tree. non-trivial = text longer than three runes",
-        "trusted_base": [
-            "modelled, not verified: regexp.Compile (assumed to accept; cases where the implementation reports a regexp syntax error are "
-            "not compared), strconv.ParseFloat/FormatFloat (number literals are exact decimals in the model; literals with more "
-            "than 15 significant digits are not compared), unicode.ToLower on non-ASCII runes (table shipped by the harness)"],
-        "assumptions": ["printing of unparenthesised `±1 * x` operands and of quoted call names are recorded known findings"],
-    },
-    "C06": {
-        "streams": [{"name": "quote.str", "quick": 8000, "thorough": 200000},
-                    {"name": "quote.needs", "quick": 8000, "thorough": 200000},
-                    {"name": "quote.ident", "quick": 8000, "thorough": 200000}],
-        "rule": "quote.*: fixed corpus + sweep of the Basic Multilingual Plane one character at a time in three contexts "
-                "(alone, after 'a', before 'a'; quick tier: one eighth of the plane chosen by the seed, thorough: all of it) + random "
-                "contents biased to quotes, backslashes, newlines, CR, NUL, keywords in mixed case, digits first; quote.ident with 1-3 "
-                "segments incl. empty ones. Compared with the model: the exact output text. Property oracle on the implementation: "
-                "the quoted text followed by 13 different continuations scans as one token covering exactly the quoted text; inside "
-                "`a = <q> AND b = 2` / `<q> = 1 AND b = 2` / `SELECT f FROM <q> WHERE b = 2` the AST keeps its shape and carries the value; "
-                "IdentNeedsQuotes(s)=false iff s bare scans as that identifier before 8 continuations. non-trivial = non-empty input",
-        "trusted_base": [
-            "modelled, not verified: strings.NewReplacer on single-byte patterns (re-implemented per character); that byte-level "
-            "replacement commutes with UTF-8 decoding (exercised by the property oracle, which works on the real Go strings); "
-            "strings.ToLower inside Lookup modelled as ASCII lower-casing (result of IdentNeedsQuotes is insensitive to the difference)"],
-        "assumptions": ["multi-part names db.rp.m are covered by correspondence and the property oracle; the theorems cover single tokens"],
-    },
-    "C05": {
-        "streams": [{"name": "scan.ops", "quick": 30000, "thorough": 1000000}],
-        "rule": "scan.ops: fixed corpus of lexical corner cases + random concatenations of 0-8 token-like fragments "
-                "(keywords in random case, bare/quoted identifiers, strings incl. unterminated and bad escapes, numbers, durations, "
-                "all operator spellings, both comment forms, $params, /regex/, odd Unicode, invalid UTF-8 or NUL) joined by "
-                "nothing or by space/tab/LF/CR/CRLF mixes; one case in five may contain NUL; one in six starts with a random "
-                "Scan/ScanRegex prefix; compared: token kind, position, literal and consumed-rune count of every token; "
-                "non-trivial = at least three tokens",
-        "trusted_base": [
-            "modelled, not verified: UTF-8 decoding by bufio.Reader.ReadRune (the model starts from the runes Go decodes); "
-            "the 3-slot rings (the model is a pure cursor; the verif hook asserts the push-back depth in the implementation)"],
-        "assumptions": ["STRING-family positions and NUL handling are recorded known findings (see known_findings.json)"],
-    },
-    "C08": {
-        "streams": [
-            {"name": "dur.parse", "quick": 20000, "thorough": 400000},
-            {"name": "dur.format", "quick": 20000, "thorough": 400000},
-        ],
-        "rule": "dur.parse: unit-boundary sweep (±3 around MaxInt64/unit for all 9 unit spellings, both signs, powers of ten, "
-                "leading zeros, over-long digit runs) + malformed corpus + random: 20% character soup over the duration alphabet, "
-                "30% multi-component sums steered to the overflow boundary, 50% ordinary; dur.format: boundary values and random "
-                "multiples of every unit; a case is non-trivial if its text has more than one rune and distinct if its case line is new",
-        "trusted_base": [
-            "modelled, not verified: Go int64 arithmetic as Int with explicit wrap64; strconv.ParseInt on a digit run "
-            "(error iff value > MaxInt64); fmt %d; []rune(s) decoding (model starts from the rune sequence)"],
-        "assumptions": ["len(s) < 2 is taken over the UTF-8 length of the rune sequence (valid UTF-8 inputs)"],
-    },
-}
+_here = os.path.dirname(os.path.abspath(__file__))
+CHECKS = {}
+for _p in sorted(glob.glob(os.path.join(_here, "config", "C*.json"))):
+    CHECKS[os.path.basename(_p)[:-5]] = json.load(open(_p, encoding="utf-8"))
